@@ -56,7 +56,8 @@ type Frame struct {
 }
 
 type Interp struct {
-	prog *ssa.Program
+	track *writeTrack // non-nil while vf.SharedWrites runs its closure
+	prog  *ssa.Program
 	ts   *TermStore
 	sol  *Solver
 	cfg  *RunConfig
@@ -802,6 +803,9 @@ func (in *Interp) storeTo(fr *Frame, p Value, v Value) {
 		if p == nil {
 			in.rtPanic(fr, "invalid memory address or nil pointer dereference")
 		}
+		if in.track != nil && in.track.cells[p] {
+			in.track.hits++
+		}
 		storeVal(p, v)
 	case *SymRef:
 		vt := v.(*Term)
@@ -1074,4 +1078,71 @@ func countPhis(b *ssa.BasicBlock) int {
 		n++
 	}
 	return n
+}
+
+// writeTrack: the cells (and maps) reachable from a root object before a closure runs; stores that hit one
+// of them while the closure runs are counted (vf.SharedWrites).
+type writeTrack struct {
+	cells map[*Value]bool
+	maps  map[*Map]bool
+	hits  int
+}
+
+func collectCells(v Value, t *writeTrack, depth int) {
+	if depth > 64 {
+		return
+	}
+	switch x := v.(type) {
+	case *Value:
+		if x == nil || t.cells[x] {
+			return
+		}
+		t.cells[x] = true
+		collectInner(x, t, depth)
+	case Iface:
+		collectCells(x.V, t, depth+1)
+	case UnsafePtr:
+		collectCells(x.p, t, depth+1)
+	case Struct, Array, Slice, Closure:
+		tmp := v
+		collectInner(&tmp, t, depth)
+	case *Map:
+		if x == nil || t.maps[x] {
+			return
+		}
+		t.maps[x] = true
+		for _, e := range x.entries {
+			if !e.deleted {
+				collectCells(e.v, t, depth+1)
+			}
+		}
+	}
+}
+
+// collectInner walks the value stored in a cell: its sub-cells are addressable (field / element addresses)
+func collectInner(cell *Value, t *writeTrack, depth int) {
+	switch y := (*cell).(type) {
+	case Struct:
+		for i := range y {
+			t.cells[&y[i]] = true
+			collectInner(&y[i], t, depth+1)
+		}
+	case Array:
+		for i := range y {
+			t.cells[&y[i]] = true
+			collectInner(&y[i], t, depth+1)
+		}
+	case Slice:
+		full := y.v[:cap(y.v)]
+		for i := range full {
+			t.cells[&full[i]] = true
+			collectInner(&full[i], t, depth+1)
+		}
+	case Closure:
+		for _, e := range y.Env {
+			collectCells(e, t, depth+1)
+		}
+	default:
+		collectCells(*cell, t, depth+1)
+	}
 }
